@@ -356,7 +356,36 @@ pub fn run(ctx: &mut Ctx) {
         };
         let maxlen = if rng.chance(1, 4) { 30 } else { 10 };
         let len = rng.range(1, maxlen);
-        let ops: Vec<Op> = (0..len).map(|_| rand_op(&mut rng, &names, &attrs)).collect();
+        let ops: Vec<Op> = if i % 5 == 4 {
+            // fill one parent with several distinct children, then prune and re-flag them: the
+            // recorded positions end up beyond the length of the list, with gaps, out of list order
+            let k = rng.range(3, 7);
+            let kids: Vec<String> = (0..k).map(|j| if j < names.len() { names[j].clone() } else { format!("n{}", j) }).collect();
+            let parent: Vec<String> = if rng.chance(1, 3) { vec![kids[0].clone()] } else { vec![] };
+            let mut v: Vec<Op> = vec![];
+            if !parent.is_empty() {
+                v.push(Op::Add(vec![], kids[0].clone(), vec![]));
+            }
+            for c in &kids {
+                v.push(Op::Add(parent.clone(), c.clone(), if rng.chance(1, 3) { vec![attrs[0].clone()] } else { vec![] }));
+            }
+            for _ in 0..rng.range(2, 8) {
+                let c = rng.pick(&kids).clone();
+                v.push(match rng.below(6) {
+                    0 | 1 => Op::Opt(parent.clone(), c),
+                    2 | 3 => Op::Remove(parent.clone(), c),
+                    4 => Op::Add(parent.clone(), c, vec![]),
+                    _ => {
+                        let mut pc = parent.clone();
+                        pc.push(c);
+                        Op::Multiple(pc)
+                    }
+                });
+            }
+            v
+        } else {
+            (0..len).map(|_| rand_op(&mut rng, &names, &attrs)).collect()
+        };
         let mut ra: Vec<String> = attrs.iter().filter(|_| rng.chance(1, 3)).cloned().collect();
         if rng.chance(1, 8) && !ra.is_empty() {
             ra.push(ra[0].clone());
